@@ -25,6 +25,12 @@ import (
 type partCase struct {
 	Kind  string     `json:"kind"`
 	Parts [][]string `json:"parts"`
+	// Pre: that many files at the head of process 1's list are imported before the other goroutines are
+	// released (a legal schedule of the model; it sets the table up, e.g. registers a package)
+	Pre     int    `json:"pre"`
+	Flavour string `json:"flavour"`
+	// Collide: computed by the spec (UnionHasCollision): do the files collide when taken together?
+	Collide *bool `json:"collide"`
 }
 
 type tracer struct {
@@ -139,14 +145,21 @@ func runFree(un *universe, in *bufio.Scanner, out io.Writer, forms []string, tra
 			var stop atomic.Bool
 			results := make([][]resRec, np+1)
 			start := make(chan struct{})
+			preDone := make(chan struct{})
 			for p := 1; p <= np; p++ {
 				wg.Add(1)
 				go func(p int) {
 					defer wg.Done()
 					register(p)
 					defer unregister()
-					<-start
-					for _, id := range c.Parts[p-1] {
+					if p != 1 || c.Pre == 0 {
+						<-start
+					}
+					for k, id := range c.Parts[p-1] {
+						if p == 1 && c.Pre > 0 && k == c.Pre {
+							close(preDone)
+							<-start
+						}
 						err := importOnce(s, un, form, id)
 						results[p] = append(results[p], resRec{F: id, OK: err == nil})
 						if tr != nil {
@@ -179,6 +192,9 @@ func runFree(un *universe, in *bufio.Scanner, out io.Writer, forms []string, tra
 					}
 				}(l, lr)
 			}
+			if c.Pre > 0 && c.Pre < len(c.Parts[0]) {
+				<-preDone
+			}
 			close(start)
 			wg.Wait()
 			stop.Store(true)
@@ -196,6 +212,16 @@ func runFree(un *universe, in *bufio.Scanner, out io.Writer, forms []string, tra
 			}
 			for _, n := range lookCount {
 				nlook += n
+			}
+			// the statement of C16 on the real verdicts
+			if c.Collide != nil && somefail != *c.Collide {
+				cls := "partition:collision-missed"
+				if somefail {
+					cls = "partition:spurious-failure"
+				}
+				_ = enc.Encode(disagreement{Class: cls,
+					Case:   map[string]any{"parts": c.Parts, "form": form, "flavour": c.Flavour, "results": results[1:]},
+					Detail: fmt.Sprintf("some Import failed = %v, files collide when taken together = %v", somefail, *c.Collide)})
 			}
 			// quiescent: the final table, through the public API
 			final := un.project(s)
